@@ -16,7 +16,7 @@
 
    [Err EUnsupported] is reserved: "the model does not cover this input" (map
    with duplicate keys, tag 0 text that is not strict RFC 3339, decimal
-   fractions / bigfloats, out-of-range times).  The correspondence check skips such cases
+   fractions / bigfloats nested under tag 1).  The correspondence check skips such cases
    and the theorems exclude them explicitly. *)
 From Coq Require Import List NArith ZArith Lia Bool.
 From Verif Require Import Base.Outcome Wire.Item Gen.Consts Wire.CborFloat.
@@ -229,6 +229,8 @@ Definition wrap_int64 (z : Z) : Z :=
    chkOvf.Uint2Int(ui, neg): overflow iff (neg && ui > 1<<63) || (!neg && ui >= 1<<63);
    i = int64(ui); if neg { i = -i } *)
 Definition int64v (u : N) (neg : bool) : res Z :=
+  if neg && (u =? 18446744073709551615) then Err EOverflow        (* F07-2: -1 - (2^64-1) no longer wraps to 0 *)
+  else
   let u1 := if neg then (u + 1) mod 18446744073709551616 else u in
   if (neg && (9223372036854775808 <? u1)) || (negb neg && (9223372036854775808 <=? u1)) then Err EOverflow
   else
@@ -305,15 +307,17 @@ Definition key_eqb (a b : item) : bool :=
 (* time.Unix(sec, nsec) for -1e9 < nsec < 1e9, then .UTC().Round(Microsecond).
    Seconds far outside what time.Time handles without wrapping are not modelled. *)
 Definition time_of_unix (sec nsec : Z) : res item :=
-  if ((sec <? -4611686018427387904) || (4611686018427387904 <? sec))%Z then Err EUnsupported
+  if ((sec <? -4611686018427387904) || (4611686018427387904 <? sec))%Z then Err EOverflow
   else
     let '(s1, n1) := if (nsec <? 0)%Z then ((sec - 1)%Z, (nsec + 1000000000)%Z) else (sec, nsec) in
     let '(s2, n2) := round_us s1 (Z.to_N n1) in
     Ok (ITime s2 n2).
 
-(* f1, f2 := math.Modf(f); time.Unix(int64(f1), int64(f2*1e9)) *)
+(* f1, f2 := math.Modf(f); since F10-2: an error unless -2^62 <= f1 <= 2^62 (NaN, Inf included; before
+   the repair int64(f1) was taken of whatever came: Unix(MinInt64, 0) with no error);
+   time.Unix(int64(f1), int64(f2*1e9)) *)
 Definition time_of_float (f : N) : res item :=
-  if f64_exp f =? 2047 then Err EUnsupported       (* NaN / Inf: int64() of those, not modelled *)
+  if f64_exp f =? 2047 then Err EOverflow
   else
     let ip := f64_trunc f in
     let fr := f64_sub f ip in
@@ -323,6 +327,22 @@ Definition time_of_float (f : N) : res item :=
 Definition f64_of_bigint (neg : bool) (n : N) : N :=
   let m := if neg then n + 1 else n in
   sign64 neg + round64 m 0.
+
+(* tag 5, since F10-3: mant * 2^exp through big.Float (prec 64), the exponent clamped to +-2^20 first *)
+Definition f64_bigfloat (mant exp : Z) : N :=
+  let e := Z.max (-1048576) (Z.min 1048576 exp) in
+  if (mant =? 0)%Z then 0
+  else sign64 (mant <? 0)%Z +
+       (if (2000 <? e)%Z then f64_inf else if (e <? -2000)%Z then 0 else round64 (Z.to_N (Z.abs mant)) e).
+
+(* tag 4, since F10-3: strconv.ParseFloat of "<mant>e<exp>": correctly rounded, +-Inf / +-0 out of range *)
+Definition f64_decimal (mant exp : Z) : N :=
+  if (mant =? 0)%Z then 0
+  else sign64 (mant <? 0)%Z +
+       (if (400 <? exp)%Z then f64_inf
+        else if (exp <? -400)%Z then 0
+        else if (0 <=? exp)%Z then round64 (Z.to_N (Z.abs mant) * 10 ^ Z.to_N exp) 0
+        else round64_ratio (Z.to_N (Z.abs mant)) (10 ^ Z.to_N (- exp)) 0).
 
 (* strict RFC 3339 text as time.Parse(time.RFC3339) reads what AppendFormat writes in UTC:
    YYYY-MM-DDTHH:MM:SS[.d+]Z ; anything else is not modelled *)
@@ -400,8 +420,8 @@ Definition dec_float64 (D : dopts) (f : nat) (b : list N) : res (N * list N) :=
           (if (2 <=? bd mod 32) && (bd mod 32 <=? 5) then Err EUnsupported else Err EBadDesc)
         else if bd / 32 <=? majNegInt then
           do (u, b2) <- read_uint (bd mod 32) b1 ;;
-          do i <- int64v u (bd / 32 =? majNegInt) ;;
-          Ok (f64_of_Z i, b2)
+          if bd / 32 =? majNegInt then do i <- int64v u true ;; Ok (f64_of_Z i, b2)
+          else Ok (round64 u 0, b2)          (* float64(ui): an unsigned integer converts directly (C07, 8d0bb74) *)
         else Err EBadDesc
   end.
 
@@ -422,6 +442,18 @@ Definition dec_bytes_fresh (D : dopts) (f : nat) (b : list N) : res (list N * li
    [d] is decoderBase.depth, [r] the recursion level of this call (instrumentation).
    The bodies are written against their recursive callees (open recursion) so that the
    lemmas can be stated per body; the fixpoints below tie the knot on the fuel. *)
+
+(* decTagInteger (F02-5): the exponent / mantissa of a decimal fraction or bigfloat *)
+Definition dec_tag_int (b : list N) : res (Z * list N) :=
+  match b with
+  | [] => Err EEof
+  | bd :: b1 =>
+      if bd / 32 <=? majNegInt then
+        do (u, b2) <- read_uint (bd mod 32) b1 ;;
+        do i <- int64v u (bd / 32 =? majNegInt) ;;
+        Ok (i, b2)
+      else Err EBadDesc
+  end.
 
 Inductive kind := KUint | KNint | KBytes | KText | KArr | KMap | KTag | KSimple.
 Definition kind_of_mt (mt : N) : kind :=
@@ -449,7 +481,12 @@ Section Bodies.
     else if (t =? 4) || (t =? 5) then
       liftI r (match b2 with
                | [] => Err EEof
-               | nn :: _ => if nn =? 130 then Err EUnsupported else Err EBadDesc   (* 0x82, since F10-1 (was 82) *)
+               | nn :: b3 =>
+                   if nn =? 130 then                     (* 0x82, since F10-1 (was 82) *)
+                     do (e, b4) <- dec_tag_int b3 ;;
+                     do (m, b5) <- dec_tag_int b4 ;;
+                     Ok (IF64 (if t =? 4 then f64_decimal m e else f64_bigfloat m e), b5)
+                   else Err EBadDesc
                end)
     else if (t =? 55799) || do_skiptags D then
       self d r b2                    (* F14-2: DecodeNaked loops instead of recursing *)
